@@ -114,7 +114,34 @@ def filter_inverse(ctx):
             probs.append('history store index differs: encode %s, decode %s' % ([x[0] for x in se], [x[0] for x in sd]))
         if oe != ['wrapping_sub'] or od != ['wrapping_add']:
             probs.append('encode must subtract and decode add the history byte (encode %s, decode %s)' % (oe, od))
-        # encode stores the byte before the subtraction, decode the byte after the addition
+        # encode stores the byte before the subtraction, decode the byte after the addition: compare the position of
+        # the read of `*item` that feeds the history store with the position of the write to `*item`
+        def item_rw(f):
+            wr = rd = None
+            for bi, b in enumerate(f.blocks):
+                if b['cleanup']:
+                    continue
+                for si, st in enumerate(b['stmts']):
+                    if st['k'] != 'assign':
+                        continue
+                    if st['lhs']['p'] == ['*'] and f.local_ty(st['lhs']['l']).startswith('&mut u8'):
+                        wr = (bi, si)
+                    names = [pe.get('n') for pe in st['lhs']['p'] if isinstance(pe, dict) and 'f' in pe]
+                    if 'history' in names and st['rv']['r'] == 'use':
+                        p0 = op_place(st['rv']['o'])
+                        if p0 is not None and p0['p'] == ['*']:
+                            rd = (bi, si)          # reads *item directly at the store
+                        elif p0 is not None and not p0['p']:
+                            for (b2, s2, k2, n2) in f.whole_defs(p0['l']):
+                                if k2 == 'assign' and n2['rv']['r'] == 'use' and (op_place(n2['rv']['o']) or {}).get('p') == ['*']:
+                                    rd = (b2, s2)
+            return wr, rd
+        wre, rde = item_rw(enc)
+        wrd, rdd = item_rw(dec)
+        if wre and rde and not (rde < wre):
+            probs.append('encode stores the filtered byte into the history (it reads *item after overwriting it)')
+        if wrd and rdd and not (rdd > wrd):
+            probs.append('decode stores the still filtered byte into the history (it reads *item before restoring it)')
         if se and 'wrapping_sub' in se[0][1]:
             probs.append('encode stores the filtered byte into the history')
         if sd and 'wrapping_add' not in sd[0][1] and 'item' not in sd[0][1]:
